@@ -4,7 +4,7 @@ R12a check-before-mutate: in Tracking.mark_cancelled / mark_forced the record st
      Forced) is appended only after node.cancel() / node.force() returned true (a refusal raises), and
      no caller disables that check (update_node=False). SupportCancelForce.cancel/force (and every
      override) set their flag only under `cancellable` / `forcible`; the NodeWithCondition overrides of
-     the two properties exclude the same states.
+     the two properties are checked against the visitors by R12e.
 R12b sibling agreement: CommandManager.cancel_instruction and force_instruction treat the three cases
      (unknown instance id / command instance / plain node) alike: an unknown id is *rejected* (raise)
      in both, a command is cancelled/forced and tracked, a node is tracked through Tracking.
@@ -19,6 +19,10 @@ R12d a cancelled command is finalized at once: in CommandManager.cancel_instruct
      `not is_finalized()` test may skip it when nothing is left to finalize). A finalisation deferred to a later tick
      leaves the cancelled instance registered; a new request of the same name finds it, and the cancelled request then
      recreates and runs the command again - the cancelled instruction performs its effect after the cancel.
+R12e request-state model (opstatic/condnode.py, shared with C04 R04e): over every interleaving of cancel/force requests with
+     the yields of visit_WatchNode / visit_AlarmNode (requests accepted exactly when the class' own cancellable / forcible
+     property holds): the body of a cancelled Watch is never invoked, and a generator that was resumed after an accepted
+     force does not come back to the same yield in the same state (it proceeds without waiting).
 """
 from __future__ import annotations
 
@@ -27,6 +31,7 @@ import ast
 from ..model import AnchorError, norm, walk_no_nested
 from ..util import cfg_of, call_attr, node_calls, assigned_attrs
 from ..cfg import facts_at
+from ..condnode import CondModel
 
 EXPLANATION = __doc__
 CM = "openpectus.engine.command_manager:CommandManager"
@@ -85,17 +90,7 @@ def run(ctx) -> None:
                         ctx.ok("R12a", inst)
                     else:
                         ctx.fail("R12a", m, n.ast, inst, f"the flag is set although the instruction is not {prop}")
-    nwc = prog.cls("openpectus.lang.model.ast:NodeWithCondition")
-    pc, pf = nwc.methods.get("cancellable"), nwc.methods.get("forcible")
-    if pc is not None and pf is not None:
-        rc = [norm(n.value) for n in walk_no_nested(pc.node) if isinstance(n, ast.Return)]
-        rf = [norm(n.value) for n in walk_no_nested(pf.node) if isinstance(n, ast.Return)]
-        inst = "NodeWithCondition.cancellable / forcible exclude cancelled, forced and activated"
-        need = ("not self.cancelled", "not self.forced", "not self.activated")
-        if len(rc) == 1 and len(rf) == 1 and all(x in rc[0] for x in need) and all(x in rf[0] for x in need):
-            ctx.ok("R12a", inst)
-        else:
-            ctx.fail("R12a", pc, pc.node, inst, f"overrides are {rc} / {rf}: a Watch/Alarm could be cancelled or forced after it activated")
+    # (the agreement of the NodeWithCondition overrides with what the visitors still honour is decided by R12e)
     # ---- R12b
     shapes = {}
     for mname in ("cancel_instruction", "force_instruction"):
@@ -234,3 +229,33 @@ def run(ctx) -> None:
                      + (f" (`{weak[0][:90]}` does not pass finalize=True unconditionally)" if weak else "") +
                      ": the cancelled instance stays registered until a later tick; a new request of the same name picks it up and "
                      "the cancelled request recreates and runs the command again", p)
+
+    # ---- R12e
+    ctx.rule("R12e", "accepted cancel/force requests of Watch and Alarm take effect in the visitor")
+    pi_ = prog.cls("openpectus.lang.exec.pinterpreter:PInterpreter")
+    for kname, vname in (("WatchNode", "visit_WatchNode"), ("AlarmNode", "visit_AlarmNode")):
+        kls = prog.cls("openpectus.lang.model.ast:" + kname)
+        f = pi_.methods.get(vname)
+        if f is None:
+            raise AnchorError(f"PInterpreter.{vname} missing")
+        m = CondModel(prog, res, kls, f)
+        if len(m.reach) < 10 or not m.body_states:
+            raise AnchorError(f"{vname}: request-state exploration is degenerate")
+        for q in m.b._funcs:
+            ctx.analysed(q)
+        forced_points = sum(1 for k in m.reach if k[0] == "resume" and m.forced(k[2]))
+        inst = f"{vname}: a forced instruction does not keep waiting"
+        if forced_points == 0:
+            raise AnchorError(f"{vname}: no force request is ever accepted in the model")
+        if not m.stuck:
+            ctx.ok("R12e", inst, {"rule": "R12e", "forced_resume_points": forced_points})
+        else:
+            key, y, st = m.stuck[0]
+            ctx.fail("R12e", f, m.g.nodes[y].ast, inst, "after an accepted force the generator comes back to the same yield with nothing "
+                     f"changed: the instruction keeps waiting | history: {m.history(key)}")
+        inst = f"{vname}: an accepted cancel keeps the body from running"
+        bad = [bk for bk in m.body_states if m.cancelled(bk[2])]
+        if not bad:
+            ctx.ok("R12e", inst)
+        else:
+            ctx.fail("R12e", f, m.g.nodes[bad[0][1]].ast, inst, f"the body runs although the cancel request was accepted | history: {m.history(bad[0])}")
